@@ -142,6 +142,12 @@ class MementoFunction(MementoFunctionBase):
     _constructor_provided_version_salt = None  # type: str
     "The explicit version salt provided by the user"
 
+    _auto_version_source = None  # type: Optional["MementoFunction"]
+    """
+    For a modifier clone (which carries a pinned version): the function whose automatically
+    computed version was pinned, or `None` if the version was declared by the user.
+    """
+
     _hash_rules = None  # type: List[HashRule]
 
     def hash_rules(self) -> List[HashRule]:
@@ -340,7 +346,7 @@ class MementoFunction(MementoFunctionBase):
         version_salt: str = None,
     ) -> MementoFunctionType:
         """Re-constructs a clone of this function, modifying one or more attributes"""
-        return MementoFunction(
+        clone = MementoFunction(
             fn=fn or self.fn,
             src_fn=src_fn or self.src_fn,
             cluster_name=cluster_name or self.cluster_name,
@@ -356,6 +362,14 @@ class MementoFunction(MementoFunctionBase):
             version_salt=version_salt or self._constructor_provided_version_salt,
             register_fn=False,
         )
+        if version is None:
+            # The clone is pinned to the version computed for this function. Remember where
+            # an automatically computed version came from, so that calls made by the clone
+            # are still validated against the detected dependencies.
+            clone._auto_version_source = (
+                self if self.explicit_version is None else self._auto_version_source
+            )
+        return clone
 
     def call(self, *args, **kwargs):
         self._validate_dependency()
@@ -569,6 +583,11 @@ class MementoFunction(MementoFunctionBase):
             frame.memento.invocation_metadata.fn_reference_with_args.fn_reference
         )
         caller = cast(MementoFunctionType, caller_ref.memento_fn)
+        auto_version_source = getattr(caller, "_auto_version_source", None)
+        if auto_version_source is not None:
+            # Caller is a modifier clone of a function with an automatically computed
+            # version: validate against the dependencies of that function.
+            caller = auto_version_source
         if caller.explicit_version is not None:
             # Caller has declared version explicitly, so there is no need to worry that
             # dependencies were not detected properly. Carry on.
